@@ -458,6 +458,41 @@ CLAIMED["C06"] = dict(
          "theorems about all states.")
 
 
+CLAIMED["C02"] = dict(
+    engine="tb", design_ref="6.2",
+    technique="Lean 4: executable model HtmlTB of html5ever's tree builder + translator-regenerated tables "
+              "(tools/extract.py -> lean/H5V/Gen/TreeTables.lean from tag_sets.rs/data.rs/mod.rs/rules.rs on every run) "
+              "proved equal to frozen WHATWG tables (lean/H5V/Spec/TreeTables.lean) and to the model's tables + "
+              "per-mechanism spec-equivalence theorems (lean/H5V/Spec/TreeAlgo.lean: quirks mode, scope predicates, "
+              "implied end tags, reset the insertion mode, tree-construction dispatcher, attribute adjustment, Noah's Ark, "
+              "adoption-agency loop bounds) + model/code correspondence on the tb engine + differential of the real code "
+              "against the patched html5lib reference + option relations and a prefix oracle on the real code",
+    text="PARTIAL. Proved (kernel-checked, for all inputs): every table of the tree builder as regenerated from the source "
+         "equals the standard's (special category, the five scope sets, implied end tags, formatting elements, table "
+         "contexts, foster-parenting targets, integration points, the 55+3+1+2+2 quirks identifiers, SVG tag-name / SVG "
+         "attribute / MathML attribute / foreign attribute adjust tables incl. prefixes, the foreign-content break-out "
+         "lists, the 8/3/3 loop limits, the fragment tokenizer states) and the model's tables equal the regenerated "
+         "ones; the sub-algorithms listed under technique equal independent transcriptions of the standard's text (see "
+         "the theorem list in evidence; `_partial` names say what is missing). NOT proved: the per-insertion-mode rule "
+         "arms (rules.rs) as a whole — no complete independent Lean transcription of section 13.2.6 exists here. That "
+         "part is carried by (a) the differential against the patched html5lib 1.1 reference on documents and "
+         "HTML-context fragments, scripting on/off (directed families rendered as text, themed tag soup, doctype "
+         "identifiers in mixed case / truncated / extended), tree and quirks mode compared, both trees in the replay; "
+         "(b) the tb correspondence (every TreeSink call at token level, every mutation at text level) tying the model "
+         "to the code, which also covers the vocabulary on which the reference is not authoritative (template, select "
+         "family, ruby children, menuitem/isindex/command, </p> and </br> in foreign content, frameset/colgroup with mixed "
+         "text runs, noscript and non-HTML fragment contexts); (c) option relations on the real code (iframe_srcdoc "
+         "never leaves no-quirks and changes nothing else, drop_doctype changes only the doctype node, exact_errors and "
+         "the initial quirks mode of a document parse change nothing) and a direct oracle on every dump (element and "
+         "attribute prefixes are those of the standard's table). A table edit in /repo fails `Gen = Spec`; the check "
+         "names the differing row and runs inputs built for that row through the real code and the reference.",
+    note="Trusted: Lean kernel; tools/extract.py (shape-checked regex translator); my transcription of the standard in "
+         "Spec/TreeTables.lean and Spec/TreeAlgo.lean; the model HtmlTB + the tb correspondence; html5lib 1.1 as patched "
+         "(tools/third_party/PATCHES.md) for the rule arms; Dom as the model of RcDom (C20). Parse errors are not "
+         "compared (body_end_ok lacks rb/rtc in the source: parse-error-only, C02_table_body_end_ok_partial). Defects "
+         "found and fixed through this check: F28–F36 (known_findings.json).")
+
+
 def main():
     props = [json.loads(l) for l in open(os.path.join(ROOT, "properties.jsonl"))]
     checks = []
